@@ -44,6 +44,11 @@ pub struct TamperCase {
     pub dir: Dir,
     pub adapter: Adapter,
     pub mutation: Mutation,
+    /// how the tampered stream reaches the decoder: 0 = one piece per frame region (each call sees one frame), 1 = the
+    /// whole stream in one piece (intact frames and the tampered one meet in a single decode call), 2 = regions coalesced
+    /// in pairs
+    #[serde(default)]
+    pub coalesce: u8,
 }
 
 fn encrypted_protos() -> Vec<Proto> {
@@ -76,8 +81,9 @@ pub fn tamper_strategy() -> BoxedStrategy<TamperCase> {
         prop_oneof![Just(Dir::Request), Just(Dir::Response)],
         prop_oneof![3 => Just(Adapter::Framed), 2 => Just(Adapter::Ws)],
         mutation_strategy(),
+        prop_oneof![3 => Just(0u8), 2 => Just(1u8), 1 => Just(2u8)],
     )
-        .prop_map(|(CredGen { cred, .. }, addr, frames, seed, vmess_mask, dir, adapter, mutation)| TamperCase { cred, addr, frames, seed, vmess_mask, dir, adapter, mutation })
+        .prop_map(|(CredGen { cred, .. }, addr, frames, seed, vmess_mask, dir, adapter, mutation, coalesce)| TamperCase { cred, addr, frames, seed, vmess_mask, dir, adapter, mutation, coalesce })
         .boxed()
 }
 
@@ -289,6 +295,18 @@ pub fn exec_tamper(sub: &str, c: &TamperCase) -> Outcome {
     cuts.extend(r.iter().filter(|x| **x > m.w).map(|x| (*x as i64 + shift).max(0) as usize));
     let exempt = crate::props::c04::exempt_prefix(&c.cred, &b.frames);
     cuts.retain(|x| *x >= exempt);
+    match c.coalesce {
+        1 => cuts.clear(),
+        2 => {
+            let mut k = 0;
+            cuts.retain(|_| {
+                k += 1;
+                k % 2 == 0
+            });
+        }
+        _ => {}
+    }
+    out.label(format!("delivery:{}", match c.coalesce { 1 => "whole-stream-in-one-read", 2 => "regions-in-pairs", _ => "one-region-per-read" }));
     let segs = cut(&m.wire, &cuts);
     let unit_idx = b.frames.frame_ends.iter().filter(|(e, _)| *e <= m.w).count();
     let field = if m.w < b.frames.header_end {
@@ -365,7 +383,7 @@ fn exhaustive_cases(seed: u64, tier: Tier) -> Vec<TamperCase> {
         for mask in masks {
             for dir in [Dir::Request, Dir::Response] {
                 let cred = gen::make_cred(proto, "tamper me", seed ^ 0x7a, if matches!(proto, Proto::Ss22(c) if c.is_aes()) { 2 } else { 0 }, 1);
-                let base = TamperCase { cred, addr: Addr::V4([10, 1, 2, 3], 8080), frames: vec![9, 14, 11], seed, vmess_mask: mask, dir, adapter: Adapter::Framed, mutation: Mutation::TruncateAt(0) };
+                let base = TamperCase { cred, addr: Addr::V4([10, 1, 2, 3], 8080), frames: vec![9, 14, 11], seed, vmess_mask: mask, dir, adapter: Adapter::Framed, mutation: Mutation::TruncateAt(0), coalesce: 0 };
                 let mut tmp = Outcome::new();
                 real::set_clock(Some(T0));
                 let Some(b) = build_stream(&as_cut_case(&base), &mut tmp, "stream-tamper-exhaustive") else { continue };
@@ -378,6 +396,8 @@ fn exhaustive_cases(seed: u64, tier: Tier) -> Vec<TamperCase> {
                         if tier == Tier::Thorough && p % 2 == 1 {
                             c.adapter = Adapter::Ws;
                         }
+                        // every other position: the whole stream arrives in one read
+                        c.coalesce = (p % 2) as u8;
                         all.push(c);
                     }
                     let mut c = base.clone();
